@@ -799,6 +799,18 @@ func verifAdopt(id int) {
 	<-th.resume
 }
 
+// verifRetire marks the calling adopted goroutine as finished (VerifSchedStep then returns VerifStepDone).
+func verifRetire() {
+	verifSched.mu.Lock()
+	g := verifGoid()
+	th := verifSched.byGoid[g]
+	delete(verifSched.byGoid, g)
+	verifSched.mu.Unlock()
+	if th != nil {
+		close(th.done)
+	}
+}
+
 // verifWorkerID names shard i's write worker thread 1000+i for the scheduler.
 func verifWorkerID[K comparable, V any](c *Cache[K, V], s *shard[K, V]) int {
 	for i, x := range c.shards {
